@@ -409,5 +409,5 @@ func C06() int {
 	r.Set("exhaustive", !capped)
 	r.Set("rule", "complete table: typed position (operator operands, definitions, assignments, compound assignments, ++/--, call arguments and arities, return values at nesting depth 0/1/2, conditions, switch tag/cases, subscripts, slice elements, range operand, builtin arguments and arities) x offered expression (27 spellings over int, bool, string/error, []int, []bool, []string, no-value call, two-value call) x enclosing context (top level, function, if, for, case, else body). Oracle: Go's typing rules for the shared syntax and the README's builtin signatures decide accept/reject per (position, offered type); both targets must agree with it and with each other. Distinct by source text.")
 	r.Assumef("unspecified by the property and skipped: ordering comparison of strings, panic's argument type, equality of slices, print of slices / multi-value calls, `return f2()` forwarding")
-	return r.Finish()
+	return finish(r)
 }
